@@ -50,11 +50,22 @@ def base_trees():
         for i in range(500):
             t[b"d%d/%s%04d" % (d, b"n" * 40, i)] = Node("slink", 0o777, target=b"t" * 30) if i % 2 else Node("fifo", 0o600)
     out.append(("large-tables", t, {}))
+    # extended directories with an index: many headers (inode block changes, > 256 entries) and first names of many lengths
+    t = {b"": Node("dir", 0o755)}
+    for d in range(3):
+        t[b"ix%d" % d] = Node("dir", 0o755)
+        for i in range(600):
+            L = 1 + (i * 7 + d * 3) % 140
+            t[b"ix%d/%04d%s" % (d, i, b"n" * L)] = Node("slink", 0o777, target=b"t" * (i % 90)) if i % 3 else Node("fifo", 0o600)
+    out.append(("indexed-dirs", t, {"with_index": True}))
     return out
 
 
-def mutation_values(orig, size, r):
+def mutation_values(orig, size, r, name=""):
     mx = (1 << (8 * size)) - 1
+    if name.endswith("name_size") and ".index" in name:
+        # the reader grows its buffer in steps: sweep the sizes around the initial capacity
+        return sorted(set(range(96, 144)) - {orig})
     vals = {0, 1, mx, mx - 1, (orig + 1) & mx, (orig - 1) & mx, 1 << (8 * size - 1), orig ^ (1 << (8 * size - 1)), r.getrandbits(8 * size)}
     if size >= 4:
         vals |= {0x7FFFFFFF & mx, 0x80000000 & mx, (orig + 8192) & mx, (orig * 2) & mx, 0xFFFF & mx, 0x10000 & mx}
@@ -90,7 +101,7 @@ def special_images(r):
         if m:
             out.append(("loop:" + name, m))
     # nested shared directory inodes (DAG): every level has entries a and b that reference the same child
-    for depth in (4, 12, 22, 40):
+    for depth in (4, 12, 22, 26, 40):
         t = {b"": Node("dir", 0o755)}
         p = b""
         for i in range(depth):
@@ -100,6 +111,10 @@ def special_images(r):
             t[b_] = Node("dir", 0o755)
             p = a
         t[p + b"/leaf"] = Node("file", 0o644, data=[("bytes", b"x")])
+        if depth % 4 == 2:
+            for q, nn in t.items():
+                if nn.type == "dir" and q:
+                    nn.xattrs = {b"user.ext": b"1"}      # extended directory inodes
         img, fmap, info = sqfsimg.build_image(t)
         m = img
         p = b""
@@ -287,7 +302,7 @@ def main(tier):
             if size > 8:
                 continue
             orig = int.from_bytes(img[off:off + size], "little")
-            for v in mutation_values(orig, size, r):
+            for v in mutation_values(orig, size, r, fname):
                 cand.append((bname, fname, off, size, v))
     rep.extra["field_mutations_available"] = len(cand)
     # in-process walk: quick = up to 3 instances of every field kind per base with all values; thorough = everything
